@@ -1283,6 +1283,8 @@ type c16Case struct {
 	TwoDocs bool `json:"two_document_stream,omitempty"`
 	// MergedPaths, if set: the path list of that one matcher (the masked paths interleaved with paths that do not exist)
 	MergedPaths []string `json:"merged_paths,omitempty"`
+	// MergedType, if set: all masked paths go into ONE Type matcher of this type, in the order of Steps
+	MergedType string `json:"merged_type,omitempty"`
 	Kind    string        `json:"kind"`       // json | sjson | yaml
 	D       JNode         `json:"d"`
 	DPrime  JNode         `json:"d_masked_changed"`
@@ -1510,6 +1512,13 @@ func (c c16Case) text(n JNode) string {
 }
 
 func (c c16Case) specs() []MatcherSpec {
+	if c.MergedType != "" {
+		m := MatcherSpec{Kind: "type", TypeName: c.MergedType}
+		for _, st := range c.Steps {
+			m.Paths = append(m.Paths, st.Spec.Paths[0])
+		}
+		return []MatcherSpec{m}
+	}
 	if c.Merged {
 		m := MatcherSpec{Kind: "any", ErrMissing: boolp(false), Stmt: len(c.Test)%2 == 1}
 		for _, st := range c.Steps {
@@ -1697,6 +1706,41 @@ func classifyC16(c c16Case) ([]string, bool) {
 		}
 	}
 	return uniq(cls), len(c.Steps) >= 1 && c.text(c.D) != c.text(c.DPrime)
+}
+
+// genC16Flat: a flat record whose members (ids, timestamps, tokens: numbers of 1-15 digits or strings of 0-20 bytes) are all
+// masked by ONE Type matcher that lists them in an order of its own - not the order of the document. The variants differ in
+// the LENGTH of every masked value, so that every replacement moves what follows it by another amount.
+func genC16Flat(t *rapid.T) c16Case {
+	c := c16Case{Kind: rapid.SampledFrom([]string{"json", "sjson"}).Draw(t, "kind"), Test: genTestName(t), Form: rapid.SampledFrom([]string{"string", "bytes"}).Draw(t, "form")}
+	keys := rapid.Permutation([]string{"a", "b", "c", "id", "ts", "k10", "name"}).Draw(t, "keys")[:rapid.IntRange(3, 6).Draw(t, "nkeys")]
+	c.MergedType = rapid.SampledFrom([]string{"float64", "string"}).Draw(t, "type")
+	value := func(label string) JNode {
+		if c.MergedType == "float64" {
+			k := rapid.IntRange(1, 15).Draw(t, label)
+			return JNode{K: "num", Num: "1" + strings.Repeat("0", k-1)}
+		}
+		return JNode{K: "str", S: strings.Repeat("u", rapid.IntRange(0, 20).Draw(t, label))}
+	}
+	c.D, c.DPrime = JNode{K: "obj"}, JNode{K: "obj"}
+	for _, k := range keys {
+		c.D.Keys, c.DPrime.Keys = append(c.D.Keys, k), append(c.DPrime.Keys, k)
+		c.D.Kids, c.DPrime.Kids = append(c.D.Kids, value("len")), append(c.DPrime.Kids, value("len2"))
+	}
+	for _, k := range rapid.Permutation(keys).Draw(t, "listed") {
+		comps := []pathComp{{Key: k}}
+		c.Steps = append(c.Steps, matcherStep{Spec: MatcherSpec{Kind: "type", TypeName: c.MergedType, Paths: []string{gjsonPath(comps)}}, Comps: comps})
+	}
+	for _, d := range []*JNode{&c.D, &c.DPrime} {
+		d.Keys, d.Kids = append(d.Keys, "unmasked"), append(d.Kids, JNode{K: "bool", B: true})
+	}
+	c.DDouble = c.D.set([]pathComp{{Key: "unmasked"}}, JNode{K: "bool", B: false})
+	c.HasDD = true
+	return c
+}
+
+func TestC16_OneTypeMatcherManyPaths(t *testing.T) {
+	prop[c16Case]{property: "C16", gen: genC16Flat, check: checkC16, classify: classifyC16, weight: 0.5}.run(t)
 }
 
 func TestC16_MaskedFields(t *testing.T) {
